@@ -1,11 +1,28 @@
-(* The unconditional one-seventh bound of C11 is false for the repaired engine: a star-shaped network
-   (one anchor, one self-rating identity, thousands of honest nodes without statements) leaves the loop
-   through the convergence test after two rounds.  Everything over the exact reals. *)
+(* Why the convergence exit must not be taken before the fourth round (repair F11b).
+   [iterate_old] is a faithful copy of the loop as it was before that repair (convergence exit allowed
+   from the first round on).  For it the unconditional one-seventh bound of C11 is FALSE: a star-shaped
+   network (one anchor, one self-rating identity, thousands of honest nodes without statements) leaves
+   the old loop through the convergence test after two rounds with 0.36 of the identity's share.
+   Everything over the exact reals.  The repaired loop ([iterate] in Model/Trust.v) satisfies the
+   bound for every network: Proofs/Trust.v, [sybil_seventh]. *)
 From Coq Require Import Reals Lra Lia FinFun.
 From SV Require Import Lib.Base Lib.GenericField Lib.GenericFieldR Gen.TrustConsts Model.Trust Proofs.Trust.
 Local Open Scope R_scope.
 
-(* ------------------------------------------------------------------ the loop can leave early:
+(* the loop before repair F11b: identical to [iterate] except that the convergence exit has no
+   minimum number of rounds *)
+Fixpoint iterate_old (nodes ks pre : list N) (es wes : list (edge RF)) (fuel : nat) (iter : N) (v : vec RF) : vec RF * N :=
+  match fuel with
+  | O => (v, iter)
+  | S k =>
+      let '(nv, diff) := @round RF nodes ks pre es wes v in
+      if @ltb RF diff (@conv_thr RF) then (nv, iter + 1)%N
+      else if (TRUST_CUT1_N <? N.of_nat (length nodes))%N && (TRUST_CUT1_ITER <? iter)%N then (nv, iter + 1)%N
+      else if (TRUST_CUT2_N <? N.of_nat (length nodes))%N && (TRUST_CUT2_ITER <? iter)%N then (nv, iter + 1)%N
+      else iterate_old nodes ks pre es wes k (iter + 1)%N nv
+  end.
+
+(* ------------------------------------------------------------------ the OLD loop can leave early:
    one anchor (2), one identity rating itself (1), honest nodes H that make no statement *)
 Section Star.
 Variable H : list N.
@@ -129,22 +146,22 @@ Proof.
   unfold Rdiv. lra.
 Qed.
 
-Lemma iterate_step : forall nodes ks pre es wes k iter (v : vec RF),
-  @iterate RF nodes ks pre es wes (S k) iter v =
+Lemma iterate_old_step : forall nodes ks pre es wes k iter (v : vec RF),
+  iterate_old nodes ks pre es wes (S k) iter v =
   if @ltb RF (snd (@round RF nodes ks pre es wes v)) (@conv_thr RF) then (fst (@round RF nodes ks pre es wes v), (iter + 1)%N)
   else if (TRUST_CUT1_N <? N.of_nat (length nodes))%N && (TRUST_CUT1_ITER <? iter)%N then (fst (@round RF nodes ks pre es wes v), (iter + 1)%N)
   else if (TRUST_CUT2_N <? N.of_nat (length nodes))%N && (TRUST_CUT2_ITER <? iter)%N then (fst (@round RF nodes ks pre es wes v), (iter + 1)%N)
-  else @iterate RF nodes ks pre es wes k (iter + 1)%N (fst (@round RF nodes ks pre es wes v)).
-Proof. intros. cbn [iterate]. destruct (@round RF nodes ks pre es wes v); reflexivity. Qed.
+  else iterate_old nodes ks pre es wes k (iter + 1)%N (fst (@round RF nodes ks pre es wes v)).
+Proof. intros. cbn [iterate_old]. destruct (@round RF nodes ks pre es wes v); reflexivity. Qed.
 
-(* the loop leaves after two rounds *)
+(* the old loop leaves after two rounds *)
 Lemma star_loop :
-  @iterate RF star_nodes star_nodes star_pre star_es (@wedges RF star_es) (N.to_nat TRUST_MAX_ITERATIONS) 0 v0 = (v2, 2%N).
+  iterate_old star_nodes star_nodes star_pre star_es (@wedges RF star_es) (N.to_nat TRUST_MAX_ITERATIONS) 0 v0 = (v2, 2%N).
 Proof.
   change (N.to_nat TRUST_MAX_ITERATIONS) with (S (S 48)).
-  rewrite iterate_step. rewrite (proj2 (ltb_R_false _ _) diff1_big).
+  rewrite iterate_old_step. rewrite (proj2 (ltb_R_false _ _) diff1_big).
   change (TRUST_CUT1_ITER <? 0)%N with false. change (TRUST_CUT2_ITER <? 0)%N with false. rewrite !andb_false_r.
-  fold (star_next v0). fold v1. rewrite iterate_step. rewrite (proj2 (ltb_R_true _ _) diff2_small).
+  fold (star_next v0). fold v1. rewrite iterate_old_step. rewrite (proj2 (ltb_R_true _ _) diff2_small).
   fold (star_next v1). fold v2. reflexivity.
 Qed.
 
@@ -181,8 +198,8 @@ Proof. unfold star_H. intro E. apply (f_equal (@length N)) in E. rewrite map_len
 
 Global Opaque star_H.
 
-(* the unconditional one-seventh bound, at the level of the loop *)
-Definition loop_seventh_full : Prop :=
+(* the unconditional one-seventh bound for the OLD loop *)
+Definition old_loop_seventh_full : Prop :=
   forall (nodes ks pre : list N) (es : list (edge RF)),
   nodes <> [] -> NoDup nodes -> NoDup ks -> incl nodes ks -> NoDup pre -> incl pre ks -> (pre = [] -> ks = nodes) ->
   (forall e, In e es -> 0 < e_val e) ->
@@ -190,17 +207,17 @@ Definition loop_seventh_full : Prop :=
   forall Sy : list N,
   NoDup Sy -> incl Sy nodes -> (forall i, In i Sy -> ~ In i pre) -> pre <> [] ->
   (forall e, In e es -> In (e_to e) Sy -> In (e_from e) Sy) ->
-  massR Sy (fst (@iterate RF nodes ks pre es (@wedges RF es) (N.to_nat TRUST_MAX_ITERATIONS) 0 (@init_vec RF nodes)))
+  massR Sy (fst (iterate_old nodes ks pre es (@wedges RF es) (N.to_nat TRUST_MAX_ITERATIONS) 0 (@init_vec RF nodes)))
   <= INR (length Sy) / INR (length nodes) / 7.
 
-Lemma loop_seventh_refuted : ~ loop_seventh_full.
+Lemma old_loop_seventh_refuted : ~ old_loop_seventh_full.
 Proof.
   intro Hfull.
   pose proof (star_H_notin 1 ltac:(lia)) as N1. pose proof (star_H_notin 2 ltac:(lia)) as N2.
   specialize (Hfull (star_nodes star_H) (star_nodes star_H) star_pre star_es
                 (star_n0 star_H) (star_nd star_H N1 N2 star_H_nodup) (star_nd star_H N1 N2 star_H_nodup)
                 (incl_refl _) star_pre_nd (star_pk star_H) (star_nopre star_H) star_pos (star_ends star_H) [1%N]).
-  assert (Hle : massR [1%N] (fst (@iterate RF (star_nodes star_H) (star_nodes star_H) star_pre star_es (@wedges RF star_es)
+  assert (Hle : massR [1%N] (fst (iterate_old (star_nodes star_H) (star_nodes star_H) star_pre star_es (@wedges RF star_es)
                                   (N.to_nat TRUST_MAX_ITERATIONS) 0 (@init_vec RF (star_nodes star_H))))
                 <= INR (length [1%N]) / INR (length (star_nodes star_H)) / 7).
   { apply Hfull.
@@ -211,162 +228,4 @@ Proof.
     - intros e [<-|[]] _. now left. }
   fold (v0 star_H) in Hle. rewrite (star_loop star_H N1 N2 star_H_nodup star_H_big) in Hle. cbn [fst] in Hle.
   pose proof (star_mass star_H N1 N2 star_H_nodup star_H_big) as Hgt. unfold star_n in Hgt. lra.
-Qed.
-
-(* ---- the same configuration is reachable: a history that builds it ---- *)
-Section StarHist.
-Variable ln1p : N -> R.
-Hypothesis Hln : forall x, 0 <= ln1p x.
-
-Definition mk0 (h : N) : edge RF := @mkEdge RF 2 h 0.
-Definition e11 : edge RF := @mkEdge RF 1 1 1.
-Definition star_ops (H : list N) : list (op RF) :=
-  @UpdLocal RF 1 1 true :: map (fun h => @UpdLocal RF 2 h false) H.
-
-Lemma upd_local_fresh : forall (L : list (edge RF)) f t nv,
-  (forall e, In e L -> ~ (e_from e = f /\ e_to e = t)) ->
-  @upd_local RF L f t nv = L ++ [@mkEdge RF f t nv].
-Proof.
-  induction L as [|e L IH]; intros f t nv Hf; [reflexivity|]. cbn [upd_local].
-  destruct ((e_from e =? f)%N && (e_to e =? t)%N) eqn:E.
-  - exfalso. apply andb_true_iff in E. destruct E as [E1 E2]. apply N.eqb_eq in E1. apply N.eqb_eq in E2.
-    apply (Hf e (or_introl eq_refl)). tauto.
-  - cbn [app]. f_equal. apply IH. intros e' He'. apply Hf. now right.
-Qed.
-
-Lemma run_false_edges : forall (H : list N) (L : list (edge RF)) S P C,
-  (forall e, In e L -> e_from e = 2%N -> ~ In (e_to e) H) -> NoDup H ->
-  fst (@run RF ln1p (@mkSt RF L S P C) (map (fun h => @UpdLocal RF 2 h false) H)) = @mkSt RF (L ++ map mk0 H) S P C.
-Proof.
-  induction H as [|h H IH]; intros L S P C HL Hnd.
-  - cbn. rewrite app_nil_r. reflexivity.
-  - inversion Hnd as [|? ? Hh Hnd']; subst. cbn [map]. rewrite run_cons. cbn [fst step st_local st_stats st_pre st_cache].
-    rewrite upd_local_fresh.
-    + rewrite IH; [|intros e He Ef|assumption].
-      * rewrite <- app_assoc. reflexivity.
-      * apply in_app_or in He. destruct He as [He|[<-|[]]].
-        -- intro Hin. apply (HL e He Ef). now right.
-        -- cbn. assumption.
-    + intros e He [Ef Et]. apply (HL e He Ef). rewrite Et. now left.
-Qed.
-
-Definition star_st (H : list N) : state RF := reach ln1p [2%N] (star_ops H).
-
-Lemma star_st_eq : forall H, NoDup H ->
-  star_st H = @mkSt RF (e11 :: map mk0 H) [] [2%N] [(2%N, @of_Q RF TRUST_ANCHOR_INITIAL)].
-Proof.
-  intros H Hnd. unfold star_st, reach, star_ops. rewrite run_cons. cbn [fst step init st_local st_stats st_pre st_cache upd_local dedupN filter map].
-  rewrite run_false_edges; [reflexivity| |assumption].
-  intros e [<-|[]] Ef. cbn in Ef. discriminate.
-Qed.
-
-Lemma dedupN_pairs : forall H, NoDup H -> ~ In 2%N H ->
-  dedupN (flat_map (fun h => [2%N; h]) H) = match H with [] => [] | _ => 2%N :: H end.
-Proof.
-  induction H as [|h H IH]; intros Hnd H2; [reflexivity|]. inversion Hnd as [|? ? Hh Hnd']; subst.
-  cbn [flat_map app dedupN]. rewrite IH by (try assumption; intro; apply H2; now right).
-  assert (h <> 2%N) by (intro; subst; apply H2; now left).
-  assert (F2 : filter (fun y => negb (y =? 2)%N) H = H).
-  { apply filter_all_true. intros y Hy. destruct (N.eqb_spec y 2); [subst; exfalso; apply H2; now right|reflexivity]. }
-  assert (Fh : filter (fun y => negb (y =? h)%N) H = H).
-  { apply filter_all_true. intros y Hy. destruct (N.eqb_spec y h); [subst; contradiction|reflexivity]. }
-  destruct H as [|h' H'].
-  - cbn [filter]. destruct (N.eqb_spec h 2); [contradiction|]. reflexivity.
-  - remember (h' :: H') as X. cbn [filter].
-    destruct (N.eqb_spec 2 h) as [E|_]; [symmetry in E; contradiction|]. cbn [negb filter].
-    destruct (N.eqb_spec h 2) as [E|_]; [contradiction|]. cbn [negb]. rewrite N.eqb_refl. cbn [negb].
-    rewrite Fh, F2. reflexivity.
-Qed.
-
-Lemma star_node_set : forall H, H <> [] -> NoDup H -> ~ In 1%N H -> ~ In 2%N H ->
-  @node_set RF (star_st H) = star_nodes H.
-Proof.
-  intros H Hne Hnd H1 H2. rewrite star_st_eq by assumption. unfold node_set. cbn [st_local st_stats map flat_map e_from e_to e11 app].
-  rewrite app_nil_r.
-  assert (E : flat_map (fun e : edge RF => [e_from e; e_to e]) (map mk0 H) = flat_map (fun h => [2%N; h]) H).
-  { clear. induction H as [|h H IH]; [reflexivity|]. cbn. rewrite IH. reflexivity. }
-  rewrite E. cbn [dedupN]. rewrite dedupN_pairs by assumption. destruct H as [|h H']; [contradiction|].
-  unfold star_nodes. remember (h :: H') as X in *.
-  assert (F1 : filter (fun y => negb (y =? 1)%N) X = X).
-  { apply filter_all_true. intros y Hy. destruct (N.eqb_spec y 1); [subst y; contradiction|reflexivity]. }
-  cbn [filter]. change (2 =? 1)%N with false. cbn [negb]. rewrite F1.
-  change (1 =? 1)%N with true. cbn [negb filter]. change (2 =? 1)%N with false. cbn [negb]. rewrite F1. reflexivity.
-Qed.
-
-Lemma star_keys : forall H, H <> [] -> NoDup H -> ~ In 1%N H -> ~ In 2%N H -> @keys RF (star_st H) = star_nodes H.
-Proof.
-  intros H Hne Hnd H1 H2. unfold keys, extra_anchors. rewrite star_node_set by assumption.
-  rewrite star_st_eq by assumption. cbn [st_pre filter]. change (memN 2 (star_nodes H)) with true. cbn [negb]. apply app_nil_r.
-Qed.
-
-Lemma star_pos_edges : forall H, NoDup H -> @pos_edges RF (st_local (star_st H)) = star_es.
-Proof.
-  intros H Hnd. rewrite star_st_eq by assumption. unfold pos_edges. cbn [st_local filter e_val e11].
-  assert (@ltb RF (@zero RF) 1 = true) as -> by (apply ltb_R_true; cbn; lra).
-  assert (E : filter (fun e : edge RF => @ltb RF (@zero RF) (e_val e)) (map mk0 H) = []).
-  { clear. induction H as [|h H IH]; [reflexivity|]. cbn [map filter mk0 e_val].
-    assert (@ltb RF (@zero RF) 0 = false) as -> by (apply ltb_R_false; cbn; lra). exact IH. }
-  rewrite E. reflexivity.
-Qed.
-
-Lemma star_power : forall H, H <> [] -> NoDup H -> forall (H1 : ~ In 1%N H) (H2 : ~ In 2%N H), 4800 < star_n H ->
-  @power RF (star_st H) = (v2 H, 2%N).
-Proof.
-  intros H Hne Hnd H1 H2 Hbig. unfold power. rewrite star_node_set, star_keys, star_pos_edges by assumption.
-  assert (st_pre (star_st H) = star_pre) as -> by (rewrite star_st_eq by assumption; reflexivity).
-  apply star_loop; assumption.
-Qed.
-
-End StarHist.
-
-(* ---- the property as written (unconditional one-seventh bound) is FALSE for the repaired engine ---- *)
-Definition seventh_full (ln1p : N -> R) : Prop := forall pre ops d Sy,
-  let st := reach ln1p pre ops in
-  0 <= d -> st_pre st <> [] -> equal_stats ln1p st -> unvouched st Sy ->
-  @mass RF (@global_trust RF ln1p st d) Sy <= pop_share st Sy / 7.
-
-Lemma w_rate_R : @of_Q RF TRUST_MF_W_RATE = 2 / 5.
-Proof. unfold of_Q, TRUST_MF_W_RATE. cbn. lra. Qed.
-
-Lemma factor_s0_pos : forall ln1p, (forall x, 0 <= ln1p x) -> 0 < @factor RF ln1p s0.
-Proof.
-  intros ln1p Hln. rewrite factor_split. pose proof (restR_nonneg ln1p Hln s0).
-  assert (rrR s0 = 1 / 2) as -> by (unfold rrR, response_rate; cbn [s_ok s_fail s0]; change (0 <? 0 + 0)%N with false; apply default_rate_R).
-  rewrite w_rate_R. lra.
-Qed.
-
-Lemma seventh_full_refuted : forall ln1p, (forall x, 0 <= ln1p x) -> ~ seventh_full ln1p.
-Proof.
-  intros ln1p Hln Hfull.
-  pose proof (star_H_notin 1 ltac:(lia)) as N1. pose proof (star_H_notin 2 ltac:(lia)) as N2.
-  pose proof star_H_ne as HHne.
-  specialize (Hfull [2%N] (star_ops star_H) 1 [1%N]). cbv zeta in Hfull. fold (star_st ln1p star_H) in Hfull.
-  pose proof (star_st_eq ln1p star_H star_H_nodup) as Est.
-  pose proof (star_node_set ln1p star_H HHne star_H_nodup N1 N2) as Ens.
-  pose proof (star_keys ln1p star_H HHne star_H_nodup N1 N2) as Eks.
-  pose proof (star_power ln1p star_H HHne star_H_nodup N1 N2 star_H_big) as Epow.
-  set (st := star_st ln1p star_H) in *.
-  assert (Hwf : wf st) by (unfold st, star_st; apply reach_wf).
-  assert (Hne : @node_set RF st <> []) by (rewrite Ens; discriminate).
-  assert (Hstats : forall i, @stats_of RF st i = s0) by (intro i; unfold stats_of; rewrite Est; reflexivity).
-  assert (Heq : forall i, In i (@keys RF st) -> @factor RF ln1p (@stats_of RF st i) = @factor RF ln1p s0)
-    by (intros i _; rewrite Hstats; reflexivity).
-  assert (Hle : @mass RF (@global_trust RF ln1p st 1) [1%N] <= pop_share st [1%N] / 7).
-  { apply Hfull.
-    - lra.
-    - rewrite Est. discriminate.
-    - intros i j _ _. rewrite !Hstats. reflexivity.
-    - split; [repeat constructor; intros []|]. split; [intros x [<-|[]]; rewrite Ens; now left|].
-      split; [intros i [<-|[]]; rewrite Est; intros [E|[]]; discriminate|].
-      intros e He Hv Ht. rewrite Est in He. cbn [st_local] in He. destruct He as [<-|He]; [now left|].
-      apply in_map_iff in He. destruct He as [h [<- _]]. cbn in Hv. lra. }
-  rewrite (mass_GT ln1p) in Hle. unfold massGT in Hle. cbn [map] in Hle. rewrite Rsum_cons in Hle.
-  rewrite (gt_V ln1p Hln st Hwf Hne (@factor RF ln1p s0) Heq 1 ltac:(lra) 1%N) in Hle by (rewrite Eks; now left).
-  pose proof (factor_s0_pos ln1p Hln) as Hc.
-  destruct (Rlt_dec 0 (@factor RF ln1p s0 * 1)) as [_|Hn]; [|lra].
-  unfold tv in Hle. rewrite Epow in Hle. cbn [fst] in Hle.
-  destruct (v2_vals star_H N1 N2 star_H_nodup) as [A _]. rewrite A in Hle.
-  unfold pop_share in Hle. rewrite Ens in Hle. fold (star_n star_H) in Hle.
-  pose proof (star_n_inv star_H star_H_big). cbn [length] in Hle. simpl INR in Hle.
-  unfold Rsum, fold_right, Rdiv in Hle. lra.
 Qed.
